@@ -92,7 +92,8 @@ pub fn deliver(sig: c_int) {
 }
 pub fn deliver_info(sig: c_int, info: *mut libc::siginfo_t) {
     unsafe {
-        let h = K::disp[sig as usize].handler;
+        // (the handler word may be round-versioned in LR harnesses: ask the model)
+        let h = libc::model::handler_of(sig as usize);
         if h == reg::handler_addr() {
             vshim::delivery_enter();
             reg::call_handler(sig, info, 0x77 as *mut libc::c_void);
@@ -115,4 +116,11 @@ pub fn skip_point(kind: u8, var: usize) -> bool {
 }
 pub fn arm_filter() {
     unsafe { COUNTER_VARS = reg::lock_counter_vars() };
+}
+
+/// Formatting is never the subject of a property here; stubbing the formatter
+/// entry point keeps `dyn Debug/Display` fan-out out of the encoding
+/// (guidance: output formatting caused most forked states in comparable work).
+pub fn no_fmt_write(_out: &mut dyn core::fmt::Write, _args: core::fmt::Arguments<'_>) -> core::fmt::Result {
+    Ok(())
 }
